@@ -197,6 +197,36 @@ def _foreign_docs(tier):
                     yield n, d, o
 
 
+NATIVE = {"date": "2020-01-02", "timestamp": "2020-01-02T03:04:05Z", "binary": "!!binary aGVsbG8=", "set": "!!set {a, b}", "inf": ".inf", "nan": ".nan", "neg-inf": "-.inf",
+          "octal": "0o17", "sexagesimal": "1:30", "null-tilde": "~", "bool-yes": "yes", "merge": "{<<: {a: 1}, b: 2}"}
+NATIVE_SLOTS = {
+    # slot name: YAML document template; @V@ is replaced by the native scalar, @O@ by an object holding it, @A@ by an array holding it
+    "property-example-scalar": "components: {schemas: {M: {type: object, properties: {p: {type: string, example: @V@}}}}}",
+    "property-example-object": "components: {schemas: {M: {type: object, properties: {p: {type: object, example: @O@}}}}}",
+    "property-example-array": "components: {schemas: {M: {type: object, properties: {p: {type: array, items: {type: string}, example: @A@}}}}}",
+    "schema-example-object": "components: {schemas: {M: {type: object, example: @O@, properties: {p: {type: string}}}}}",
+    "property-default": "components: {schemas: {M: {type: object, properties: {p: {type: string, default: @V@}}}}}",
+    "any-default-object": "components: {schemas: {M: {type: object, properties: {p: {default: @O@}}}}}",
+    "enum-value": "components: {schemas: {E: {type: string, enum: [a, @V@]}}}",
+    "const-value": "components: {schemas: {M: {type: object, properties: {p: {const: @V@}}}}}",
+    "parameter-example-object": "paths: {/x: {get: {parameters: [{name: q, in: query, example: @O@, schema: {type: string, example: @A@}}], responses: {'200': {description: d}}}}}",
+    "body-schema-example": "paths: {/x: {post: {requestBody: {content: {application/json: {schema: {type: object, example: @O@, properties: {a: {type: string, example: @V@}}}}}}, responses: {'200': {description: d}}}}}",
+    "response-schema-example": "paths: {/x: {get: {responses: {'200': {description: d, content: {application/json: {schema: {type: array, items: {type: string}, example: @A@}}}}}}}}",
+    "info-version": "info2: {version: @V@}",
+}
+
+
+def _yaml_native_docs():
+    for sname, tmpl in NATIVE_SLOTS.items():
+        for vname, v in NATIVE.items():
+            body = tmpl.replace("@V@", v).replace("@O@", "{k: " + v + ", n: 1}").replace("@A@", "[" + v + ", x]")
+            if sname == "info-version":
+                text = "openapi: 3.1.0\ninfo: {title: t, version: " + v + "}\npaths: {}\n"
+            else:
+                text = "openapi: 3.1.0\ninfo: {title: t, version: '1'}\n" + ("paths: {}\n" if not body.startswith("paths") else "") + body + "\n"
+            yield f"{sname}/{vname}", text
+
+
 def cases(tier):
     # (i) bytes
     maxlen = 3 if tier == "quick" else 4
@@ -238,6 +268,9 @@ def cases(tier):
     cyc = [[n, d] for n, d in _cycle_docs()]
     yield {"labels": ["cyclic-refs"], "payload": {"mode": "docs", "docs": [d for _n, d in cyc], "names": [n for n, _d in cyc], "fail_on_warning": False, "what": "cycle"}}
     yield {"labels": ["cyclic-refs", "fail-on-warning"], "payload": {"mode": "docs", "docs": [d for _n, d in cyc], "names": [n for n, _d in cyc], "fail_on_warning": True, "what": "cycle"}}
+    # YAML documents whose example / default / enum / const values are YAML-native scalars (dates, timestamps, binary, sets, .inf, .nan)
+    yield {"labels": ["yaml-native-values"], "payload": {"mode": "yamlnative", "fail_on_warning": False}}
+    yield {"labels": ["yaml-native-values", "fail-on-warning"], "payload": {"mode": "yamlnative", "fail_on_warning": True}}
     # CLI option faults
     yield {"labels": ["cli-options"], "payload": {"mode": "cli-options"}}
     # (iv) other checks' documents
@@ -347,6 +380,15 @@ def run_case(p):
             for x in v:
                 if name:
                     x["key"] += f"/{name}"
+            viol += v
+            outcomes[o] += 1
+            steps += 1
+    elif mode == "yamlnative":
+        for name, text in _yaml_native_docs():
+            src = _write("c06in.yaml", text.encode("utf-8"))
+            v, o = run_cli(src, p.get("fail_on_warning", False), key=f"yaml-native {name}")
+            for x in v:
+                x["key"] += f"/{name}"
             viol += v
             outcomes[o] += 1
             steps += 1
